@@ -190,7 +190,10 @@ static void op_fpx(int argc, char **argv) {
 	if (alias == 2) pc = pb;
 	RLC_TRY {
 		switch (e->kind) {
-		case K_UN: NEED(1); ELEM(A, arg[0]); ((void (*)(fp_t *, fp_t *))e->fn)(pc, pa); break;
+		case K_UN: NEED(1); ELEM(A, arg[0]);
+			/* compressed squarings write four of the six fp2 coefficients only: preset the destination with the operand */
+			if (strstr(e->name, "sqr_pck") && pc == C) memcpy(C, A, sizeof(fp_t) * n);
+			((void (*)(fp_t *, fp_t *))e->fn)(pc, pa); break;
 		case K_BIN: NEED(2); ELEM(A, arg[0]); ELEM(B, arg[1]); ((void (*)(fp_t *, fp_t *, fp_t *))e->fn)(pc, pa, pb); break;
 		case K_UNR1: NEED(1); ELEM(A, arg[0]); ((void (*)(dv_t *, fp_t *))e->fn)(D, pa);
 			pc = C; for (int i = 0; i < n; i++) fp_rdc(C[i], D[i]); break;
